@@ -7,8 +7,12 @@ ASSUMPTIONS = ["fault-free transport (faults: C09/C10); the simulated terminal a
                "the abstract specification tools/clientgen.py:Abs (token -> receipt map) is the oracle; requests are assembled by the independent reference encoder"]
 
 
-def run_histories(ctx, out, cases, what):
-    """cases: list of (cfg, calls, queues, tserial, ttid). Compares implementation, model and abstract specification."""
+def run_histories(ctx, out, cases, what, gap=None):
+    """cases: list of (cfg, calls, queues, tserial, ttid). Compares implementation, model and abstract specification.
+    `gap`: the terminal waits that many virtual seconds before each item it sends (slow but talking terminal) — the
+    model has no notion of such delays, so these runs compare the IMPLEMENTATION with the specification only, with
+    time stamps removed: gaps shorter than the per-packet time-out must not change any result or any byte sent."""
+    import re
     spec = S.load_spec()
     ops, want = [], []
     for cfg, calls, queues, tserial, ttid in cases:
@@ -28,10 +32,13 @@ def run_histories(ctx, out, cases, what):
                 res.append(a.commit(bytes.fromhex(f[1]).decode(), int(f[2])))
             elif f[0] == "readcard":
                 res.append(a.read_card(classify_status))
-        ops.append(G.op_line(cfg, calls, G.script_str(cfg, queues, None, None, tserial, ttid)))
+        ops.append(G.op_line(cfg, calls, G.script_str(cfg, queues, None, None, tserial, ttid) + (f" gap={gap}" if gap else "")))
         want.append(" | ".join(r + "@0" for r in res) + " || c0:" + ",".join(["open@0"] + G.expected_log(a.tx) + ["close@0"]))
-    impl, model = ctx.pair(ops)
-    out.compare("client(history)", ops, impl, model)
+    if gap:
+        impl = [re.sub(r"@\d+", "@0", x) for x in ctx.harness(ops)]
+    else:
+        impl, model = ctx.pair(ops)
+        out.compare("client(history)", ops, impl, model)
     out.evaluations += len(ops)
     for o, r, w in zip(ops, impl, want):
         out.nontrivial.add(o)
@@ -123,7 +130,7 @@ def run(ctx, out):
     thorough = ctx.search_tier == "thorough"
     tokens = ["a", "b", "c"]
     begin_out = {"ok1": [P.status(receipt_no=11, result_code=0), P.completion()],
-                 "ok2": [P.intermediate(), P.status(receipt_no=4242, result_code=0), P.completion()],
+                 "ok2": [P.status(receipt_no=7, result_code=0), P.intermediate(), P.status(receipt_no=4242, result_code=0), P.completion()],
                  "abort": [P.abort(0x6c)], "noreceipt": [P.status(result_code=0), P.completion()],
                  # a receipt number is reported, then the terminal aborts after all: the call fails and opens nothing
                  "receipt_abort": [P.status(receipt_no=77, result_code=0), P.abort(0x6c)]}
@@ -131,7 +138,7 @@ def run(ctx, out):
     can_out = {"ok": [P.completion()], "abort": [P.pr_abort(0xb5)]}
     letters = []
     for t in tokens:
-        for o in ("ok1", "abort", "noreceipt", "receipt_abort"):
+        for o in ("ok1", "ok2", "abort", "noreceipt", "receipt_abort"):
             letters.append((f"begin:{tok(t)}", "0622", begin_out[o]))
         for o in ("ok", "abort"):
             letters.append((f"commit:{tok(t)}:100", "0623", fin_out[o]))
